@@ -674,7 +674,7 @@ pub static C04: CmdCheck = CmdCheck {
 const TYPED: &[HostSel] = &[HostSel::Direct, HostSel::CoreFx, HostSel::CoreCaps];
 const CORES: &[HostSel] = &[HostSel::CoreFx, HostSel::CoreCaps];
 const ALL_HOSTS: &[HostSel] =
-    &[HostSel::Direct, HostSel::CoreFx, HostSel::CoreCaps, HostSel::BridgeBincode, HostSel::BridgeJson, HostSel::BridgeBincodeFx];
+    &[HostSel::Direct, HostSel::CoreFx, HostSel::CoreCaps, HostSel::BridgeBincode, HostSel::BridgeJson, HostSel::BridgeBincodeFx, HostSel::Stream];
 
 fn c01_tweak(cfg: &mut GenCfg, sc: &mut ScriptCfg, rng: &mut Rng, h: HostSel) {
     cfg.conts = rng.chance(3, 4);
@@ -780,7 +780,7 @@ fn c05_tweak(cfg: &mut GenCfg, sc: &mut ScriptCfg, rng: &mut Rng, h: HostSel) {
 pub static C05: CmdCheck = CmdCheck {
     id: "C05",
     level: "exploration",
-    hosts: &[HostSel::Direct, HostSel::Direct, HostSel::CoreCaps],
+    hosts: &[HostSel::Direct, HostSel::Direct, HostSel::CoreCaps, HostSel::Stream],
     diff_hosts: ALL_HOSTS,
     laws: false,
     layers: true,
@@ -815,7 +815,7 @@ fn c06_tweak(cfg: &mut GenCfg, sc: &mut ScriptCfg, rng: &mut Rng, _h: HostSel) {
 pub static C06: CmdCheck = CmdCheck {
     id: "C06",
     level: "fault_enumeration",
-    hosts: TYPED,
+    hosts: &[HostSel::Direct, HostSel::CoreFx, HostSel::CoreCaps, HostSel::Stream],
     diff_hosts: &[],
     laws: false,
     layers: false,
